@@ -46,6 +46,13 @@ def runCalls (p : CState) (k : Nat) (tok : Int) (raw : String) : Nat → Int →
     if p.err.isSome then p else
     runCalls ((p.ev (.call k i tok) raw).ev (.ret k) raw) k tok raw c (i + 1)
 
+/-- Driver-only storage compaction after a long run of calls: `lp` is a chain of `upd` closures
+    (two per call); rebuild it as a table for the workers `u < w`.  `BulkC.step` reads `lp k` only
+    under the guard `k < w`, so the acceptor's behaviour does not depend on the values at `u ≥ w`. -/
+def compact (p : CState) : CState :=
+  let tbl := ((List.range p.st.w).map p.st.lp).toArray
+  { p with st := { p.st with lp := fun u => tbl.getD u .out } }
+
 def compStep (qobjs : List Nat) (tok : Int) (p : CState) (l : Line) : CState :=
   if p.err.isSome then p else
   let t := l.tid
@@ -68,7 +75,9 @@ def compStep (qobjs : List Nat) (tok : Int) (p : CState) (l : Line) : CState :=
   | "live.cbeg" => worker (fun k => p.ev (.call k l.a l.b) l.raw)
   | "live.cret" => worker (fun k => p.ev (.ret k) l.raw)
   | "live.cthrow" => worker (fun k => p.ev (.throw k) l.raw)
-  | "live.run" => worker (fun k => runCalls p k tok l.raw l.b.toNat l.a)
+  | "live.run" => worker (fun k =>
+      let p' := runCalls p k tok l.raw l.b.toNat l.a
+      if l.b ≥ 1024 then compact p' else p')
   | "ciq.loaded" | "ciq.iter" | "ciq.ok" =>
     match p.task t, qOf qobjs l.obj with
     | some k, some q =>
